@@ -1,4 +1,41 @@
-Require Import Verif.LG.LGModel.
-From Coq Require Import ZArith.
-Theorem placeholder : (1 = 1)%Z. Proof. reflexivity. Qed.
-Print Assumptions placeholder.
+(* C20 - logging: each committed entry written once, intact; pages accounted for.
+   Only statements here; every proof is `exact <lemma of LG/LGProofs.v>`. *)
+From Coq Require Import ZArith List Permutation.
+Require Import Verif.Gen.Gen_log_entry Verif.LG.LGModel Verif.LG.LGProofs.
+Import ListNotations.
+Local Open Scope Z_scope.
+
+(* For every page size that fits the bookkeeping and every byte sequence streamed into an entry:
+   the scatter list exists (no wild slot read) and spells exactly the streamed bytes. *)
+Theorem c20_bytes_exact : forall p bs, params_ok p ->
+  exists v, append_to_iovec p (run p bs) = Some v /\ iov_bytes v (data (run p bs)) = bs.
+Proof. exact lg_bytes_exact. Qed.
+Print Assumptions c20_bytes_exact.
+
+(* every page the allocator handed out for the entry (data pages and page-table pages) appears in the
+   scatter list exactly once, and nothing else does *)
+Theorem c20_pages_once : forall p bs, params_ok p ->
+  exists v, append_to_iovec p (run p bs) = Some v /\ Permutation (map fst v) (all_pages (run p bs)).
+Proof. exact lg_pages_once. Qed.
+Print Assumptions c20_pages_once.
+
+(* building the entry never writes a page slot beyond its array *)
+Theorem c20_no_slot_overrun : forall p bs, params_ok p -> err (run p bs) = false.
+Proof. exact lg_no_oob. Qed.
+Print Assumptions c20_no_slot_overrun.
+
+Theorem c20_size_is_length : forall p bs, params_ok p -> size (run p bs) = Z.of_nat (length bs).
+Proof. exact lg_size. Qed.
+Print Assumptions c20_size_is_length.
+
+(* every scatter element is within one page *)
+Theorem c20_iov_lengths : forall p bs v, params_ok p ->
+  append_to_iovec p (run p bs) = Some v -> Forall (fun e => 0 <= snd e <= p) v.
+Proof. exact lg_iov_lens. Qed.
+Print Assumptions c20_iov_lengths.
+
+(* non-vacuity: the hypothesis is met by real page sizes, and a concrete entry spills into chained tables *)
+Example c20_params_4096 : params_ok 4096.
+Proof. exact lg_params_4096. Qed.
+Example c20_spills : length (tabs (run 24 (map Z.of_nat (seq 0 500)))) = 4%nat.
+Proof. vm_compute. reflexivity. Qed.
